@@ -38,6 +38,33 @@ pub fn charge(usage_after: usize) {
     });
 }
 
+thread_local! {
+    static POS_LISTENER: RefCell<Option<Box<dyn FnMut(usize)>>> = const { RefCell::new(None) };
+}
+
+/// Installs (or, with `None`, removes) the current thread's listener for [`pos`] reports.
+pub fn set_pos_listener(listener: Option<Box<dyn FnMut(usize)>>) {
+    POS_LISTENER.with(|l| *l.borrow_mut() = listener);
+}
+
+/// Reports that the dispatcher's "not yet in the sink" mark moved: of the chunk being
+/// processed, the last `unemitted` bytes have not been emitted (no-op without a listener).
+#[inline]
+pub fn pos(unemitted: usize) {
+    POS_LISTENER.with(|l| {
+        if let Some(cb) = l.borrow_mut().as_mut() {
+            cb(unemitted);
+        }
+    });
+}
+
+/// Reports that output may have been emitted while the mark stayed where it was (the listener
+/// is called with `usize::MAX`).
+#[inline]
+pub fn pos_unchanged() {
+    pos(usize::MAX);
+}
+
 /// Bumps probe `id`.
 #[inline]
 pub fn hit(id: usize) {
